@@ -20,24 +20,28 @@ func init() { Registry["C14"] = Prop{Run: runC14, Replay: replayC14} }
 // ---- the editable world --------------------------------------------------------------------------
 
 type c14world struct {
-	m      *ir.Module
-	st     *types.StructType // literal struct type used by @origin; may be named later
-	origin *ir.Global
-	decl   *ir.Func // declared void function (callee of void calls)
-	funcs  []*ir.Func
-	nname  int
-	limit  *constant.Int   // integer constant in use by @limit; edited in place by one operation
-	ratio  *constant.Float // floating-point constant in use by @ratio
-	gdecl  *ir.Global      // global created as a declaration (no initializer, no linkage)
-	fdecl  *ir.Func        // function created as a declaration (no body)
-	linkG  bool            // the harness has set the linkage of gdecl / of the first function
-	linkF  bool
-	attrG  bool
-	initG  bool
-	bodyF  bool
-	steps  int // edit operations executed so far
-	baDone bool
-	bare   bool // the initial globals were removed
+	m                              *ir.Module
+	st                             *types.StructType // literal struct type used by @origin; may be named later
+	origin                         *ir.Global
+	decl                           *ir.Func // declared void function (callee of void calls)
+	funcs                          []*ir.Func
+	nname                          int
+	limit                          *constant.Int   // integer constant in use by @limit; edited in place by one operation
+	ratio                          *constant.Float // floating-point constant in use by @ratio
+	gdecl                          *ir.Global      // global created as a declaration (no initializer, no linkage)
+	fdecl                          *ir.Func        // function created as a declaration (no body)
+	linkG                          bool            // the harness has set the linkage of gdecl / of the first function
+	linkF                          bool
+	attrG                          bool
+	initG                          bool
+	bodyF                          bool
+	steps                          int // edit operations executed so far
+	baDone                         bool
+	bare                           bool         // the initial globals were removed
+	ext2                           *ir.Func     // declared i32 (i32, i32) function
+	phi                            *ir.InstPhi  // the phi appended by the harness (operand-level edits)
+	call2                          *ir.InstCall // the two-argument call appended by the harness
+	phiRep, phiWr, callRep, callWr bool
 }
 
 func c14new() *c14world {
@@ -49,6 +53,7 @@ func c14new() *c14world {
 	w.m.NewGlobalDef("limit", w.limit)
 	w.ratio = constant.NewFloat(types.Double, 1.5)
 	w.m.NewGlobalDef("ratio", w.ratio)
+	w.ext2 = w.m.NewFunc("ext2", types.I32, ir.NewParam("", types.I32), ir.NewParam("", types.I32))
 	return w
 }
 
@@ -279,6 +284,36 @@ func c14ops() []c14op {
 			}},
 		)
 	}
+	// operand-level edits: an element of an operand LIST replaced in place, and a value written
+	// through the slot that Operands() hands out (a cached operand view is contradicted by both).
+	ops = append(ops,
+		c14op{"append phi [1, first block], [2, last block] @last-block", "append-inst", "local", func(w *c14world) bool { return w.block(1) != nil && w.phi == nil }, func(w *c14world) {
+			w.phi = w.block(1).NewPhi(ir.NewIncoming(constant.NewInt(types.I32, 1), w.block(0)), ir.NewIncoming(constant.NewInt(types.I32, 2), w.block(1)))
+			w.phi.SetName(w.name("ph"))
+		}},
+		c14op{"replace the last incoming of the phi IN PLACE (Incs[1] = NewIncoming(7, same block))", "edit-operand-list", "local", func(w *c14world) bool { return w.phi != nil && !w.phiRep }, func(w *c14world) {
+			w.phiRep = true
+			w.phi.Incs[1] = ir.NewIncoming(constant.NewInt(types.I32, 7), w.phi.Incs[1].Pred.(*ir.Block))
+		}},
+		c14op{"write i32 9 through the operand slot of the phi's last incoming value", "edit-through-slot", "local", func(w *c14world) bool { return w.phi != nil && !w.phiWr }, func(w *c14world) {
+			w.phiWr = true
+			ops := w.phi.Operands()
+			*ops[len(ops)-2] = constant.NewInt(types.I32, 9)
+		}},
+		c14op{"append named call @ext2(i32 p, i32 11) @last-block", "append-inst", "local", func(w *c14world) bool { return w.block(1) != nil && w.call2 == nil }, func(w *c14world) {
+			w.call2 = w.block(1).NewCall(w.ext2, w.operand(), constant.NewInt(types.I32, 11))
+			w.call2.SetName(w.name("c"))
+		}},
+		c14op{"replace the last argument of the call IN PLACE (Args[1] = 13)", "edit-operand-list", "local", func(w *c14world) bool { return w.call2 != nil && !w.callRep }, func(w *c14world) {
+			w.callRep = true
+			w.call2.Args[1] = constant.NewInt(types.I32, 13)
+		}},
+		c14op{"write i32 15 through the last operand slot of the call", "edit-through-slot", "local", func(w *c14world) bool { return w.call2 != nil && !w.callWr }, func(w *c14world) {
+			w.callWr = true
+			ops := w.call2.Operands()
+			*ops[len(ops)-1] = constant.NewInt(types.I32, 15)
+		}},
+	)
 	ops = append(ops,
 		c14op{"SetName on block", "rename", "local", c14hasBlock(1), func(w *c14world) { w.block(1).SetName(w.name("blk")) }},
 		c14op{"SetName(\"\") on block", "unname", "local", c14hasBlock(0), func(w *c14world) { w.block(0).SetName("") }},
